@@ -33,6 +33,9 @@ type genState struct {
 	colls  map[string]bool
 	cmpOf  map[string]int
 	shadow map[string]map[string]int32 // approximate contents: name -> key -> priority
+	// once a Flush may have persisted a collection under some comparator, the name keeps it (the application
+	// must supply the comparator the data was built with when the file is loaded again)
+	everFlushed bool
 }
 
 func (g *genState) track(o Op) {
@@ -48,6 +51,8 @@ func (g *genState) track(o Op) {
 		delete(g.shadow[o.Name], string(o.Key))
 	case "rmcoll":
 		delete(g.shadow, o.Name)
+	case "flush":
+		g.everFlushed = true
 	}
 }
 
@@ -301,6 +306,19 @@ func GenHistory(r *Rng, cfg GenCfg) []Op {
 				case 3:
 					if cfg.FileBacked {
 						ops = append(ops, Op{K: "reopen"})
+						if r.Chance(1, 2) {
+							// mutations on a store with nothing loaded: deletes and overwrites of keys deep in the tree
+							for j := 0; j < 1+r.Intn(4); j++ {
+								if r.Chance(2, 3) {
+									ops = append(ops, Op{K: "del", Name: n, Key: g.key()})
+								} else {
+									ops = append(ops, Op{K: "set", Name: n, Key: g.key(), Val: genVal(r, false), Prio: g.prio()})
+								}
+							}
+							if r.Chance(1, 2) {
+								ops = append(ops, Op{K: "tot", Name: n}, Op{K: "flush"}, Op{K: "reopen"}, Op{K: "tot", Name: n})
+							}
+						}
 					}
 				}
 			}
@@ -327,13 +345,33 @@ func GenHistory(r *Rng, cfg GenCfg) []Op {
 				case 1, 2:
 					// same comparator: the tree's order stays meaningful; on a collection without items any
 					// comparator may be installed (SetCollection "installs the new comparator")
-					if cfg.CmpMode == 1 && len(g.shadow[nm]) == 0 && r.Chance(1, 2) {
+					if cfg.CmpMode == 1 && len(g.shadow[nm]) == 0 && !g.everFlushed && r.Chance(1, 2) {
 						g.cmpOf[nm] = r.Intn(4)
 					}
 					ops = append(ops, Op{K: "coll", Name: nm, N: g.cmpOf[nm]})
 					g.colls[nm] = true
 				case 3:
 					ops = append(ops, Op{K: "names"})
+				}
+				if cfg.Structural && cfg.FileBacked && r.Chance(1, 3) {
+					// a change of the NAME SET only between two flushes (the number of collections may stay the same)
+					ops = append(ops, Op{K: "flush"})
+					switch r.Intn(3) {
+					case 0:
+						ops = append(ops, Op{K: "rmcoll", Name: nm}, Op{K: "coll", Name: nm, N: g.cmpOf[nm]})
+						delete(g.shadow, nm)
+						g.colls[nm] = true
+					case 1:
+						other := collNamePool[r.Intn(len(collNamePool))]
+						ops = append(ops, Op{K: "rmcoll", Name: nm}, Op{K: "coll", Name: other, N: g.cmpOf[other]})
+						delete(g.shadow, nm)
+						g.colls[nm] = false
+					case 2:
+						ops = append(ops, Op{K: "rmcoll", Name: nm})
+						delete(g.shadow, nm)
+						g.colls[nm] = false
+					}
+					ops = append(ops, Op{K: "flush"}, Op{K: "names"}, Op{K: "reopen"}, Op{K: "names"})
 				}
 			}
 		case x < 94:
